@@ -5,6 +5,7 @@ package main
 import (
 	"fmt"
 	"go/types"
+	"strings"
 
 	"golang.org/x/tools/go/ssa"
 )
@@ -153,7 +154,29 @@ func init() {
 	models["errors.New"] = newErr
 	pureModels["errors.New"] = true
 	models["fmt.Sprintf"] = func(fr *Frame, st *State, args []Val, rt types.Type) Val {
-		return Val{T: rt, S: []Term{fr.vc.fresh("sprintf", "Str")}}
+		vc := fr.vc
+		r := vc.fresh("sprintf", "Str")
+		// a constant format contributes its literal bytes to the result
+		for lit, name := range vc.strLits {
+			if name == args[0].S[0] {
+				n := 0
+				for i := 0; i < len(lit); i++ {
+					if lit[i] == '%' && i+1 < len(lit) {
+						if lit[i+1] == '%' {
+							n++
+						}
+						i++
+						for i < len(lit) && strings.ContainsRune("+-# 0123456789.[]*", rune(lit[i])) {
+							i++
+						}
+						continue
+					}
+					n++
+				}
+				vc.assume(st, tLe(tInt(int64(n)), sx("slen", r)))
+			}
+		}
+		return Val{T: rt, S: []Term{r}}
 	}
 	pureModels["fmt.Sprintf"] = true
 	models["fmt.Sprint"] = models["fmt.Sprintf"]
